@@ -3056,14 +3056,16 @@ class Wallet(object):
         :return: Updated balance
         """
 
+        # An unspent output counts for the account of the key it pays (which can be another one than the account the
+        # transaction was created for)
         qr = self.session.query(DbTransactionOutput, func.sum(DbTransactionOutput.value), DbTransaction.network_name,
-                                 DbTransaction.account_id).\
-            join(DbTransaction). \
+                                 DbKey.account_id).\
+            join(DbTransaction).join(DbKey). \
             filter(DbTransactionOutput.spent.is_(False),
                    DbTransaction.wallet_id == self.wallet_id,
                    DbTransaction.confirmations >= min_confirms)
         if account_id is not None:
-            qr = qr.filter(DbTransaction.account_id == account_id)
+            qr = qr.filter(DbKey.account_id == account_id)
         if network is not None:
             qr = qr.filter(DbTransaction.network_name == network)
         if key_id is not None:
@@ -3075,7 +3077,7 @@ class Wallet(object):
             DbTransactionOutput.transaction_id,
             DbTransactionOutput.output_n,
             DbTransaction.network_name,
-            DbTransaction.account_id
+            DbKey.account_id
         ).all()
 
         key_values = [
@@ -3343,7 +3345,7 @@ class Wallet(object):
                                  DbKey.network_name).\
             join(DbTransaction).join(DbKey). \
             filter(DbTransactionOutput.spent.is_(False),
-                   DbTransaction.account_id == account_id,
+                   DbKey.account_id == account_id,
                    DbTransaction.wallet_id == self.wallet_id,
                    DbTransaction.network_name == network,
                    DbTransaction.confirmations >= min_confirms)
